@@ -864,7 +864,9 @@ class Emit:
         if op == 'unreachable': return ['__CPROVER_assume(0); %s' % retzero]
         if op == 'resume': return ['__exc_pending = 1; %s' % retzero]
         if op == 'landingpad':
-            return ['%s.f0 = __exc_obj; %s.f1 = %d;' % (d, d, 1 if ins['catch'] else 0)]
+            # the exception is now 'in flight' in this frame: cleanup calls made from the landing pad must not be mistaken for
+            # throwing ones (the flag is raised again by `resume`, and stays clear after __cxa_begin_catch)
+            return ['%s.f0 = __exc_obj; %s.f1 = %d; __exc_pending = 0;' % (d, d, 1 if ins['catch'] else 0)]
         if op in ('call','invoke'):
             return s.emit_call(ins, lab, edge, retzero)
         if op == 'fence': return []
